@@ -21,6 +21,9 @@ type Report struct {
 
 const libMarker = "github.com/varlink/go/"
 
+// overlayFile is the file name under which the white-box accessors are injected into package varlink (see ./check).
+const overlayFile = "zz_verif_whitebox.go"
+
 var lineRx = regexp.MustCompile(`^\s+(/\S+\.go):(\d+)`)
 
 // Parse reads every <dir>/<prefix>.* file.
@@ -55,6 +58,11 @@ func parseBlock(blk string) Report {
 		fn, site := pickFrame(s)
 		keys = append(keys, fn)
 		sites = append(sites, fn+"@"+site)
+		if strings.HasPrefix(site, overlayFile+":") {
+			// one of the two accesses is made by the harness' own white-box accessor (overlay file): its locking mirrors
+			// the pinned tree and says nothing about the library's own accesses
+			r.Relevant = false
+		}
 	}
 	sort.Strings(keys)
 	sort.Strings(sites)
